@@ -27,7 +27,11 @@ type ConcScenario struct {
 
 	Ctor   CacheCtor `json:"ctor"`
 	Epoch  int64     `json:"epoch"`
-	CBKind int       `json:"cb_kind"` // 0 none, 1 recording, 2 recording + re-entrant
+	CBKind int       `json:"cb_kind"` // 0 none, 1 recording, 2 recording + re-entrant, 3 slow, 4 observer, 5 re-arming
+	// TickPerRead: the clock advances by this much at every reading (C13 only:
+	// no oracle that models time is applied to such a run)
+	TickPerRead int64  `json:"tick_per_read,omitempty"`
+	Tier        string `json:"tier,omitempty"`
 	// TwoContainers (C14 only): odd tasks work on a second container of the same kind
 	TwoContainers bool `json:"two_containers,omitempty"`
 
@@ -163,7 +167,16 @@ func RunConc(sc *ConcScenario, want Want) *ConcResult {
 	}
 
 	budget := uint64(3000000) // watchdog only (never a verdict)
-	sim := simrt.New(simrt.Config{Seed: sc.SchedSeed, Strategy: sc.Strategy, Epoch: sc.Epoch, StepBudget: budget, Replay: sc.Replay})
+	callLimit := 400000
+	if sc.Tier == "thorough" {
+		callLimit = 1500000
+	}
+	sim := simrt.New(simrt.Config{Seed: sc.SchedSeed, Strategy: sc.Strategy, Epoch: sc.Epoch, StepBudget: budget, Replay: sc.Replay, CallStepLimit: callLimit})
+	if sc.TickPerRead > 0 {
+		// a running clock: every reading is later than the one before
+		tick := sc.TickPerRead
+		sim.NowHook = func(s *simrt.Sim) { s.Advance(tick, false, 0) }
+	}
 	defer sim.Close()
 	w := &World{sim: sim}
 	cacheFam := sc.Family == "cache"
